@@ -1084,12 +1084,13 @@ class Walker:
         self.depth = depth
 
     _KNOWN_FUNCTIONS = None
+    AUTO_INLINE = True      # rule sets that follow helpers themselves (C20) switch this off while they run
 
     def _new_helper(self, name):
         """a crate-local function that does not exist on the pinned tree: an extracted helper, walked as part of its
         callers (ledgers/known_functions.json is the list of functions of the pinned tree)"""
         facts = self.body.facts
-        if facts is None or name not in facts.bodies or "{closure" in name or name == self.body.path:
+        if not Walker.AUTO_INLINE or facts is None or name not in facts.bodies or "{closure" in name or name == self.body.path:
             return False
         if Walker._KNOWN_FUNCTIONS is None:
             import json as _json
